@@ -486,6 +486,26 @@ def run_history(ctx, idx, rng, tmp):
                     ctx.count("ml_score_temporary_feature_set")
                 finally:
                     twin.close()
+                if kind != "hierarchy" and ds.format != "hierarchy" and rng.random() < 0.5:
+                    # the dataset holds a (read-only) view of the client's array: the client
+                    # updates its scores in place - they are the dataset's current data
+                    arr[:] = rng.uniform(0, 1, n)
+                    if np.array_equal(np.asarray(ds["ml_score_ccc"]), arr):
+                        hist.append(["temp", "ml_score_ccc", "updated in place by the client"])
+                        twin = build(kind, data, {s_: dict(kv) for s_, kv in cfg.items()}, temp,
+                                     tmp, idx)
+                        for s_, k_ in deleted:
+                            if k_ in twin.config[s_]:
+                                del twin.config[s_][k_]
+                        try:
+                            hist.append(["read", "ml_class", "root (after the in-place update)"])
+                            judge_read(ctx, ds, twin, "ml_class", hist, eff_cfg(), data,
+                                       data.get("area_um"))
+                            ctx.count("ml_score_temporary_feature_updated_in_place")
+                        finally:
+                            twin.close()
+                    else:
+                        ctx.count("in_place_update_not_visible_in_dataset")
             elif r < 0.48:
                 arr = rng.normal(size=n)
                 via = None
